@@ -34,9 +34,48 @@ pub fn normalise_clock(text: &str) -> String {
     out
 }
 
+/// Trees that no command line spells (empty element lists, explicit grouping / option nodes,
+/// octal escapes above \377, empty strings), built through the public constructors; corpus
+/// entries of the form "\u{1}T:<k>" stand for them.
+pub fn built_trees() -> Vec<speclib::ast::Expr> {
+    use speclib::ast::*;
+    let nl = Fmt::Special(Special::Newline);
+    let name = || Expr::Test(Test::Name("x".into()));
+    vec![
+        Expr::Action(Action::Printf(vec![])),
+        Expr::Action(Action::FPrintf("f".into(), vec![])),
+        Expr::and(name(), Expr::Action(Action::Printf(vec![]))),
+        Expr::prec(Expr::Action(Action::Print)),
+        Expr::not(Expr::prec(Expr::not(Expr::Action(Action::Print0)))),
+        Expr::Global(Global::Depth),
+        Expr::and(name(), Expr::Global(Global::Threads(3))),
+        Expr::Positional,
+        Expr::Action(Action::Printf(vec![Fmt::Field(Field::Name), Fmt::Special(Special::Ascii(511))])),
+        Expr::Action(Action::Printf(vec![Fmt::Special(Special::Ascii(256)), nl.clone()])),
+        Expr::list(Expr::Action(Action::Print), Expr::Action(Action::Printf(vec![]))),
+        Expr::or(Expr::Action(Action::Printf(vec![])), Expr::Action(Action::Print0)),
+        Expr::Test(Test::Type(vec![])),
+        Expr::Test(Test::Type(vec![FType::File; 9])),
+        Expr::Test(Test::Perm(PermKind::Any, 0o7777)),
+        Expr::Test(Test::Name(String::new())),
+        Expr::Action(Action::FPrint(String::new())),
+        Expr::Test(Test::XattrMatch(String::new(), String::new())),
+        Expr::Action(Action::Printf(vec![Fmt::Lit(String::new())])),
+        Expr::Action(Action::Printf(vec![Fmt::Lit(String::new()), nl])),
+        Expr::prec(Expr::prec(Expr::prec(name()))),
+    ]
+}
+
 /// The canonical record of one input: (class, full text).
 pub fn canon(input: &str) -> (String, String) {
-    match parse_real(input) {
+    let parsed = match input.strip_prefix("\u{1}T:").and_then(|k| k.parse::<usize>().ok()) {
+        Some(k) => match built_trees().get(k).and_then(conv::expr_to_real) {
+            Some(e) => P::Ok(crate::subject::options(false, None), e),
+            None => P::Err("no such built tree".into()),
+        },
+        None => parse_real(input),
+    };
+    match parsed {
         P::Panic(p) => (format!("parse-panic:{}", panic_site(&p)), format!("P-PANIC {}", panic_site(&p))),
         P::Err(e) => ("parse-err".into(), format!("P-ERR {e}")),
         P::Ok(o, e) => {
